@@ -12,6 +12,8 @@ PRIMARY = {"taxa": "taxa", "vrnt": "vrnt_name", "trait": "trait"}
 # variants with ids >= BIGPOS_FROM (only ever introduced by later joins) sit beyond the int32 range: a label array that was
 # narrowed to the smallest integer dtype holding its own values must be widened, not wrapped, when such variants are joined
 BIGPOS_FROM, BIGPOS = 215, 3_000_000_000
+# ... and from HUGEPOS_FROM on beyond 2**53: valid int64 coordinates that do not survive a round trip through float64
+HUGEPOS_FROM, HUGEPOS = 222, 2 ** 60 + 1
 # taxa introduced by later joins (ids >= LATE_TAXA) belong to groups 4..7, all larger than the groups 0..3 of the initial taxa
 # and in no particular order among themselves: joining them onto a grouped matrix must not leave stale group partitions behind
 LATE_TAXA = 100
@@ -46,7 +48,7 @@ class Regime:
                 d["taxa_grp"] = None
             return d
         if axis == "vrnt":
-            d = dict(vrnt_chrgrp=(ids % 3 + 1).astype("int64"), vrnt_phypos=(ids * 13 % 997 + 1 + numpy.where(ids >= BIGPOS_FROM, BIGPOS, 0)).astype("int64"),
+            d = dict(vrnt_chrgrp=(ids % 3 + 1).astype("int64"), vrnt_phypos=(ids * 13 % 997 + 1 + numpy.where(ids >= BIGPOS_FROM, BIGPOS, 0) + numpy.where(ids >= HUGEPOS_FROM, HUGEPOS, 0)).astype("int64"),
                      vrnt_name=numpy.array(["V%03d" % k(i) for i in ids], dtype=object), vrnt_genpos=ids * 0.01,
                      vrnt_xoprob=(ids % 7) / 14.0, vrnt_hapgrp=(ids % 5).astype("int64"),
                      vrnt_hapalt=numpy.array(["A%d" % (i % 4) for i in ids], dtype=object),
@@ -65,7 +67,7 @@ class Regime:
         if axis == "taxa":
             return (("T%03d" % k),) if self.kind == "absent" else ((i * 7) % 4 + (4 if i >= LATE_TAXA else 0), "T%03d" % k)
         if axis == "vrnt":
-            return (i % 3 + 1, i * 13 % 997 + 1 + (BIGPOS if i >= BIGPOS_FROM else 0))
+            return (i % 3 + 1, i * 13 % 997 + 1 + (BIGPOS if i >= BIGPOS_FROM else 0) + (HUGEPOS if i >= HUGEPOS_FROM else 0))
         return ("Y%02d" % k,)
 
 
